@@ -1,6 +1,7 @@
 //! Correspondence harness: generates cases, runs the real crates (built from /repo's working
 //! tree) in-process and prints one protocol line per case (input + the implementation's
 //! canonicalised output) for the Lean driver.  See /verif/DESIGN.md section 5.
+mod c16;
 mod c17;
 mod c20;
 mod mp4gen;
@@ -113,6 +114,7 @@ fn main() {
     for line in replay_lines.iter() {
         let line = line.clone();
         match prop.as_str() {
+            "C16" => c16::replay(&line, &mut out),
             "C17" => c17::replay(&line, &mut out),
             "C20" => c20::replay(&line, &mut out),
             "C01" | "C02" | "C03" | "C04" | "C05" => mp4props::replay(&prop, &line, &mut out),
@@ -127,6 +129,7 @@ fn main() {
         return;
     }
     match prop.as_str() {
+        "C16" => c16::run(&opts, &mut out),
         "C17" => c17::run(&opts, &mut out),
         "C20" => c20::run(&opts, &mut out),
         "C01" | "C02" | "C03" | "C04" | "C05" => mp4props::run(&prop, &opts, &mut out),
